@@ -4,6 +4,7 @@ CONSTANTS
   PayloadSizes = {0, 1, 100, 127, 128, 16000, 16383, 16384, 16400, 2097000, 2097151, 2097152}
   FilterCounts = {0, 1, 2, 3}
   BigSizes = {268435450, 268435451, 268435452, 268435453}
+  ManyCounts = {4096, 4097}
   Thorough = TRUE
 SPECIFICATION Spec
 INVARIANTS C09_DenyExactlyInvalid C09_WithinLimits
